@@ -35,7 +35,8 @@ type hop struct {
 	Bogus bool   `json:"bogus,omitempty"` // lmsg: the sender is unreachable, so the tree request cannot be sent
 	Ver   int    `json:"ver,omitempty"`
 	Desc  int    `json:"desc,omitempty"` // presp / ptm: index into the description table, -1 = nil
-	Ros   int    `json:"ros,omitempty"`  // presp / pros / preqros: index into the roster table, -1 = nil
+	Ros   int    `json:"ros,omitempty"`  // presp / pros / preqros / rtest: index into the roster table, -1 = nil
+	K     int    `json:"k,omitempty"`    // rset: which of the responses held between test and store goes on
 }
 
 // ---- harness protocol ---------------------------------------------------------------------
@@ -114,7 +115,8 @@ type hworld struct {
 	descs   []*onet.TreeMarshal // see mkWorld
 	bogus   *network.ServerIdentity
 	nmark   int
-	stuck   string // the operation did not complete within the (generous) deadlines: an observation
+	fly     []*flying // responses held at overlay.treeArriveTested: they passed the test, have not stored yet
+	stuck   string    // the operation did not complete within the (generous) deadlines: an observation
 	note    string
 }
 
@@ -249,6 +251,18 @@ func (w *hworld) opLit(o hop, nilFirst bool) string {
 			ro = "(Some " + w.d.rosterBare(w.rosters[o.Ros]) + ")"
 		}
 		return fmt.Sprintf("(PResponseTree %s %s)", tm, ro)
+	case "rtest":
+		tm := "None"
+		if o.Desc >= 0 {
+			tm = "(Some " + w.d.tm(w.descs[o.Desc]) + ")"
+		}
+		ro := "None"
+		if o.Ros >= 0 {
+			ro = "(Some " + w.d.rosterBare(w.rosters[o.Ros]) + ")"
+		}
+		return fmt.Sprintf("(RTest %s %s)", tm, ro)
+	case "rset":
+		return fmt.Sprintf("(RSet %d)", o.K)
 	case "ptm":
 		return "(PTreeMarshal " + w.d.tm(w.descs[o.Desc]) + " 0)"
 	case "preqros":
@@ -410,6 +424,51 @@ func (w *hworld) exec(o hop) (outcome string, nilFirst bool) {
 			rt.Roster = w.rosters[o.Ros]
 		}
 		outcome = w.process(&network.Envelope{ServerIdentity: from, MsgType: onet.ResponseTreeMsgID, Msg: rt})
+	case "rtest":
+		// a response whose handler is held between its test and its store (schedule point
+		// overlay.treeArriveTested); if the handler returns without reaching the point, the
+		// response was dropped or refused
+		rt := &onet.ResponseTree{}
+		if o.Desc >= 0 {
+			rt.TreeMarshal = cloneTM(w.descs[o.Desc])
+		}
+		if o.Ros >= 0 {
+			rt.Roster = w.rosters[o.Ros]
+		}
+		f := &flying{gate: w.sched.Block(arrivePoint, 1, nil), done: make(chan string, 1)}
+		go func() {
+			defer func() {
+				if e := recover(); e != nil {
+					f.done <- "Crashed"
+				}
+			}()
+			w.ov.Process(&network.Envelope{ServerIdentity: from, MsgType: onet.ResponseTreeMsgID, Msg: rt})
+			f.done <- "Fine"
+		}()
+		hit := make(chan bool, 1)
+		go func() { hit <- f.gate.WaitHit(30 * time.Second) }()
+		select {
+		case outcome = <-f.done:
+			f.gate.Release()
+		case h := <-hit:
+			if h {
+				w.fly = append(w.fly, f)
+			} else {
+				w.stuck = "response handler neither returned nor reached the point after its test"
+				f.gate.Release()
+			}
+		}
+	case "rset":
+		if o.K >= 0 && o.K < len(w.fly) {
+			f := w.fly[o.K]
+			w.fly = append(w.fly[:o.K:o.K], w.fly[o.K+1:]...)
+			f.gate.Release()
+			select {
+			case outcome = <-f.done:
+			case <-time.After(30 * time.Second):
+				w.stuck = "held response did not finish its store"
+			}
+		}
 	case "ptm":
 		outcome = w.process(&network.Envelope{ServerIdentity: from, MsgType: onet.SendTreeMsgID, Msg: cloneTM(w.descs[o.Desc])})
 	case "preqros":
@@ -482,6 +541,26 @@ func (w *hworld) keepTags(cands []tagCand, oc string, tags map[string]bool) {
 			tags[c.tag] = true
 		}
 	}
+}
+
+const arrivePoint = "overlay.treeArriveTested"
+
+type flying struct {
+	gate *lib.Gate
+	done chan string
+}
+
+// hasArrivePoint reports whether /repo has the schedule point between the test and the
+// store of handleSendTree (proposed_fixes/C06-hook-arrive.diff). Without it the two-section
+// scenarios cannot be forced and are not generated.
+func hasArrivePoint() bool {
+	w := mkWorld(input{Kind: "hist", Name: "probe"})
+	defer w.close()
+	w.exec(h("lmsg", 0, 1))
+	w.quiesce()
+	w.exec(h("presp", 0, 0))
+	w.quiesce()
+	return w.sched.Count(arrivePoint) > 0
 }
 
 func cloneTM(m *onet.TreeMarshal) *onet.TreeMarshal {
@@ -634,6 +713,12 @@ func runHist(in input) lib.Case {
 		}
 	}()
 	var ops, snaps, trace []string
+	race := false
+	for _, o := range in.Ops {
+		if strings.HasPrefix(o.Op, "r") {
+			race = true
+		}
+	}
 	peer := false
 	tags := map[string]bool{}
 	for _, o := range in.Ops {
@@ -648,10 +733,14 @@ func runHist(in input) lib.Case {
 			tags["stuck"] = true
 		}
 		w.keepTags(cands, oc, tags)
-		ops = append(ops, w.opLit(o, nilFirst))
+		lit := w.opLit(o, nilFirst)
+		if race && !strings.HasPrefix(o.Op, "r") {
+			lit = "(RSeq " + lit + ")"
+		}
+		ops = append(ops, lit)
 		snaps = append(snaps, w.snapshot(oc))
 		trace = append(trace, o.Op+":"+oc)
-		if strings.HasPrefix(o.Op, "p") {
+		if strings.HasPrefix(o.Op, "p") || strings.HasPrefix(o.Op, "r") {
 			peer = true
 		}
 		if oc != "Fine" {
@@ -673,7 +762,13 @@ func runHist(in input) lib.Case {
 	if w.stuck != "" && os.Getenv("VERIF_DEBUG") != "" {
 		fmt.Fprintln(os.Stderr, "hist stuck:", in.Name, w.stuck, trace)
 	}
+	for _, f := range w.fly { // responses still held at the end of the history go on
+		f.gate.Release()
+	}
 	coq := fmt.Sprintf("CHist %s %s", lib.List(ops), lib.List(snaps))
+	if race {
+		coq = fmt.Sprintf("CRace %s %s", lib.List(ops), lib.List(snaps))
+	}
 	last := ""
 	if len(snaps) > 0 {
 		last = snaps[len(snaps)-1]
@@ -696,8 +791,10 @@ func h(op string, args ...int) hop {
 		o.Tree, o.Node = args[0], args[1]
 	case "preqtree":
 		o.Tree, o.Ver = args[0], args[1]
-	case "presp":
+	case "presp", "rtest":
 		o.Desc, o.Ros = args[0], args[1]
+	case "rset":
+		o.K = args[0]
 	case "ptm":
 		o.Desc = args[0]
 	case "preqros", "pros":
@@ -805,8 +902,29 @@ func randomHist(rng *rand.Rand, n int) []hop {
 	return ops
 }
 
+// raceScenarios: the test and the store of handleSendTree are two critical sections
+func raceScenarios() []scen {
+	return []scen{
+		// the solicited response and a second one carrying the same id, another tree: both pass the test
+		{"race-two-responses", []hop{h("lmsg", 0, 1), h("rtest", 0, 0), h("rtest", 3, 0), h("rset", 0), h("rset", 0), h("preqtree", 0, 1)}},
+		// the same response twice (same content)
+		{"race-same-response", []hop{h("lmsg", 0, 1), h("rtest", 0, 0), h("rtest", 0, 0), h("rset", 1), h("rset", 0)}},
+		// a local registration of the tree in the window of a response describing another tree
+		{"race-local-register", []hop{h("lmsg", 0, 1), h("rtest", 3, 0), h("lreg", 0), h("rset", 0)}},
+		// a full response overtakes a held one; the tree is released; the held one stores
+		{"race-after-release", []hop{h("lmsg", 0, -1), h("rtest", 0, 0), h("presp", 0, 0), h("expire", 0), h("rset", 0)}},
+		// a refused response never reaches the point
+		{"race-refused", []hop{h("rtest", 0, 0), h("lmsg", 0, 1), h("rtest", 5, 0), h("rtest", 0, 1), h("rtest", 0, 0), h("rset", 0)}},
+	}
+}
+
 func genHist(rng *rand.Rand, tier string) []interface{} {
 	var ins []interface{}
+	if hasArrivePoint() {
+		for i, sc := range raceScenarios() {
+			ins = append(ins, input{Kind: "hist", Name: sc.name, Ops: sc.ops, World: i})
+		}
+	}
 	reps, rnd := 1, 60
 	if tier != "quick" {
 		reps, rnd = 6, 1500
